@@ -2,7 +2,7 @@
    Only statements here; proofs are in Proofs/Crc*.v, Proofs/Frames*.v, Bridge/Crc.v. *)
 From Coq Require Import ZArith List Bool.
 From NV Require Import Base.Result Base.Bytes Base.PyPrims Model.Crc Model.Frames Gen.Crc
-  Proofs.Crc Proofs.CrcCheck Proofs.Frames Proofs.Frames2 Bridge.Crc.
+  Proofs.Crc Proofs.CrcCheck Proofs.Frames Proofs.Frames2 Bridge.Crc Gen.FramesK Bridge.FramesK.
 Import ListNotations.
 Open Scope Z_scope.
 
@@ -45,6 +45,17 @@ Print Assumptions C14_bridge_check_crc_a.
 Theorem C14_bridge_check_crc_b : forall d, 2 <= len d -> Ok (gen_check_crc_b d) = check_crc_b d.
 Proof. exact bridge_check_crc_b. Qed.
 Print Assumptions C14_bridge_check_crc_b.
+
+(* --- tie: the frame construction statements cut out of the three drivers on this run are the model functions --- *)
+Theorem C14_bridge_pn53x_build : forall cmd data, gen_pn53x_build cmd data = pn53x_build cmd data.
+Proof. exact bridge_pn53x_build. Qed.
+Print Assumptions C14_bridge_pn53x_build.
+Theorem C14_bridge_acr122_build : forall cmd data f, acr122_build cmd data = Ok f -> gen_acr122_build cmd data = f.
+Proof. exact bridge_acr122_build. Qed.
+Print Assumptions C14_bridge_acr122_build.
+Theorem C14_bridge_rcs380_build : forall data, gen_rcs380_build data = rcs380_build data.
+Proof. exact bridge_rcs380_build. Qed.
+Print Assumptions C14_bridge_rcs380_build.
 
 (* --- PN53x command frames are well formed for every payload length (normal and extended) --- *)
 Theorem C14_pn53x_build_ok : forall cmd data, len data <= 65533 ->
